@@ -15,7 +15,10 @@ CHECK_DEADLOCK FALSE
 
 def run(ctx):
     ctx.build_harness()
-    ctx.assumptions += ["hostile inputs are well-formed on the wire (byte-level malformation: see C19)",
+    ctx.assumptions += ["under hostile traffic only finalization (not the one-round fast path) is demanded: the block "
+                        "producer measures slice time with std::time::Instant, which stands still under the paused clock, "
+                        "so a transaction flood stretches block production in virtual time (a simulation artefact)",
+                        "hostile inputs are well-formed on the wire (byte-level malformation: see C19)",
                         "< 20% Byzantine stake (safety-violation assertions of the finality tracker are out of reach)"]
     # 1. design level: the intended validation of every interface implies the requirements of the later stages
     ctx.witness("nodeio", "MC_NodeIO", CFG, "", ["W_BeforeFixPanics"])
@@ -45,6 +48,23 @@ def run(ctx):
         for k in range(6):
             runs.append(dict(name=f"hostile6_{k}", stakes=[1, 1, 1, 1, 1, 1], byz=[k], seed=ctx.seed + 30 + k,
                              run_ms=30000, gst=2000, chaos=1000, drop=30, crashed=[(k + 2) % 6], crash_at=3000))
+    # 3. equivocating leaders (two blocks per slot shown to a seeded split of the receivers): the tasks of the
+    #    correct nodes - in particular the next leader's block production - must survive, finalization continues
+    n_eq = 8 if ctx.tier == "quick" else 40
+    for k in range(n_eq):
+        name = f"equiv_{k}"
+        stakes = [2, 2, 2, 1] if k % 2 == 0 else [1, 1, 1, 1, 1, 1]
+        byz = [3] if k % 2 == 0 else [(k // 2) % 6]
+        trace, summary = S.run_sim(ctx, name, stakes, byz=byz, byz_mode="equivocate", seed=ctx.seed + 100 + k,
+                                   gst=1000, chaos=500, delta=80, run_ms=20000)
+        ctx.traces += 1
+        ctx.notes.setdefault("equivocation_sims", []).append(
+            {"name": name, "finals": summary["finals"], "panics": summary["panics"]})
+        for p in summary["panics"] + summary["node_errors"] + summary["task_panics"]:
+            where = p.split(":")[0].split("/")[-1] if "/" in p else "task"
+            ctx.divergence(name, f"panic:{where}", {"panic": p, "stakes": stakes, "byz": byz, "seed": ctx.seed + 100 + k})
+        if min(f["finalized_slot"] for f in summary["finals"]) < 30 and not summary["panics"]:
+            ctx.divergence(name, "wedged:finalization stopped", {"finals": summary["finals"], "seed": ctx.seed + 100 + k})
     for sc in runs:
         name = sc.pop("name")
         stakes, byz, crashed = sc["stakes"], sc["byz"], sc.get("crashed", [])
@@ -63,7 +83,7 @@ def run(ctx):
             ctx.divergence(name, f"panic:{where}", {"panic": p, "config": sc})
         # ... and the node keeps voting, producing, repairing, finalizing (progress goal on the execution)
         consts = (f"  Crashed = {{{', '.join(map(str, crashed))}}}\n  SilentByz = {{}}\n"
-                  f"  StableFrom = {sc['gst'] + sc['chaos'] + 1000}\n  EndT = {sc['run_ms']}\n  Margin = 3500\n")
+                  f"  StableFrom = {sc['gst'] + sc['chaos'] + 1000}\n  EndT = {sc['run_ms']}\n  Margin = 3500\n  RequireFast = FALSE\n")
         rej = S.validate(ctx, "tv_" + name, trace, stakes, byz, module="Trace_Progress",
                          invs=S.TRACE_INVS + ["GoalAtEnd"], extra_consts=consts)
         if rej:
